@@ -5,9 +5,12 @@ import RedisGoModel.Props.EquivBase
     which `canonReply` sorts away.
 
     HRANDFIELD: the *acceptance* of an observed reply is permutation-invariant (`hrandAccept_perm`), so an accepted observation is
-    answered identically on both sides (`hrandReply_perm_of_accepted`).  But when there is no observation, or the observation is
-    refused, the executor answers `hrandDefault`, which takes a PREFIX OF THE STORED LIST — that reply depends on the
-    representation (`Equiv.hrandfield_witness` in `Props/Equiv.lean`), so HRANDFIELD is excluded from the table-wide theorem. -/
+    answered identically on both sides (`hrandReply_perm_of_accepted`).  When there is no observation, or the observation is
+    refused, the executor answers `hrandDefault`, which selects from the CANONICAL presentation of the hash (`hrandCanon`: the fields
+    in bytewise order) — the same list for two presentations of one hash (`hrandCanon_eq`, an instance of `sortBy_of_perm`: the
+    fields are unique), hence the same answer (`hrandDefault_perm`, `hrandReply_perm`) and `e_hrandfield : CmdOk cmdHRandField`.
+    (In the first version of the model `hrandDefault` took a prefix of the STORED list; that leaked the representation and
+    HRANDFIELD had to be excluded from the table-wide theorem.  The leak was removed by canonicalising the default.) -/
 namespace Exec.Equiv
 open Resp (Reply Bytes)
 open Exec
@@ -252,7 +255,7 @@ theorem e_hincrbyfloat : CmdOk cmdHIncrByFloat := by
       · exact e_hashWrite env _ _ (fun h h' hr => hincrbyfloat_perm hr _ _ _) hs
   · eq_pair
 
-/-! ### HRANDFIELD: acceptance is representation-free, the fallback reply is not -/
+/-! ### HRANDFIELD: acceptance is representation-free -/
 
 theorem hrandPlain_perm {h h' : HashT} (hr : HashP h h') : ∀ (l : List Reply), hrandPlain h l = hrandPlain h' l
 | [] => rfl
@@ -329,7 +332,7 @@ theorem hrandPairs_sel {h : HashT} (ok : Ok h) : ∀ (sel : HashT), (∀ p ∈ s
     hget_of_mem ok (hs p List.mem_cons_self), beq_self_eq_true, if_true]
   rw [ih]; rfl
 
-/-- the selection `hrandDefault` makes for a count -/
+/-- the selection `hrandFirst` makes for a count -/
 def hrandSel (h : HashT) (c : Int) : HashT :=
   if c ≥ 0 then h.take (hrandLen h.length c) else
     match h with | [] => [] | p :: _ => List.replicate (hrandLen h.length c) p
@@ -362,12 +365,12 @@ theorem hrandSel_distinct {h : HashT} (ok : Ok h) {c : Int} (hc : c ≥ 0) : all
   rw [if_pos hc]
   exact List.Nodup.sublist (List.Sublist.map _ (List.take_sublist _ _)) ok
 
-theorem hrandDefault_count (h : HashT) (c : Int) (wv : Bool) :
-    hrandDefault h (some c) wv = .arr (some ((if wv then flatPairs (hrandSel h c) else (hrandSel h c).map Prod.fst).map bulk)) := rfl
+theorem hrandFirst_count (h : HashT) (c : Int) (wv : Bool) :
+    hrandFirst h (some c) wv = .arr (some ((if wv then flatPairs (hrandSel h c) else (hrandSel h c).map Prod.fst).map bulk)) := rfl
 
-/-- **the fallback answer satisfies the specification** -/
-theorem hrandDefault_accepted {h : HashT} (ok : Ok h) (count : Option Int) (wv : Bool) :
-    hrandAccept h count wv (hrandDefault h count wv) = true := by
+/-- the leading fields of ANY presentation are an acceptable answer -/
+theorem hrandFirst_accepted {h : HashT} (ok : Ok h) (count : Option Int) (wv : Bool) :
+    hrandAccept h count wv (hrandFirst h count wv) = true := by
   cases count with
   | none =>
     cases h with
@@ -376,7 +379,7 @@ theorem hrandDefault_accepted {h : HashT} (ok : Ok h) (count : Option Int) (wv :
       show (hget (p :: h) p.1).isSome = true
       rw [hget_cons, if_pos rfl]; rfl
   | some c =>
-    rw [hrandDefault_count]
+    rw [hrandFirst_count]
     unfold hrandAccept
     dsimp only
     have hlen := hrandSel_length h c
@@ -393,9 +396,65 @@ theorem hrandDefault_accepted {h : HashT} (ok : Ok h) (count : Option Int) (wv :
       · simp [hc]
       · simp [hc, hrandSel_distinct ok (Int.not_lt.mp hc)]
 
-theorem hrandDefault_not_err (h : HashT) (count : Option Int) (wv : Bool) (e : Bytes) : hrandDefault h count wv ≠ .err e := by
+theorem hrandFirst_not_err (h : HashT) (count : Option Int) (wv : Bool) (e : Bytes) : hrandFirst h count wv ≠ .err e := by
   cases count with
   | none => cases h <;> (intro he; cases he)
-  | some c => rw [hrandDefault_count]; intro he; cases he
+  | some c => rw [hrandFirst_count]; intro he; cases he
+
+/-! ### the canonical presentation -/
+
+/-- the canonical presentation is a presentation of the same hash -/
+theorem hrandCanon_perm (h : HashT) : (hrandCanon h).Perm h := sortBy_perm _ h
+
+theorem hrandCanon_hashP {h : HashT} (ok : Ok h) : HashP h (hrandCanon h) := HashP.of_perm (hrandCanon_perm h).symm ok
+
+/-- with unique fields an entry is determined by its field -/
+theorem fst_inj_of_ok {h : HashT} (ok : Ok h) : ∀ a ∈ h, ∀ b ∈ h, a.1 = b.1 → a = b := by
+  intro a ha b hb hab
+  have h1 := hget_of_mem ok ha
+  have h2 := hget_of_mem ok hb
+  rw [hab, h2] at h1
+  exact Prod.ext hab (Option.some.inj h1).symm
+
+/-- **two presentations of one hash have the same canonical presentation** -/
+theorem hrandCanon_eq {h h' : HashT} (hr : HashP h h') : hrandCanon h = hrandCanon h' :=
+  sortBy_of_perm Prod.fst (fst_inj_of_ok hr.2.1) hr.1
+
+/-- **the fallback answer does not depend on the presentation** -/
+theorem hrandDefault_perm {h h' : HashT} (hr : HashP h h') (count : Option Int) (wv : Bool) :
+    hrandDefault h count wv = hrandDefault h' count wv := by
+  unfold hrandDefault
+  rw [hrandCanon_eq hr]
+
+/-- **the fallback answer satisfies the specification** -/
+theorem hrandDefault_accepted {h : HashT} (ok : Ok h) (count : Option Int) (wv : Bool) :
+    hrandAccept h count wv (hrandDefault h count wv) = true := by
+  have hr := hrandCanon_hashP ok
+  rw [hrandAccept_perm hr]
+  exact hrandFirst_accepted hr.2.2 count wv
+
+theorem hrandDefault_not_err (h : HashT) (count : Option Int) (wv : Bool) (e : Bytes) : hrandDefault h count wv ≠ .err e :=
+  hrandFirst_not_err _ count wv e
+
+/-- **HRANDFIELD's reply does not depend on the presentation**, with or without an observation, accepted or refused -/
+theorem hrandReply_perm {h h' : HashT} (hr : HashP h h') (obs : Option Reply) (count : Option Int) (wv : Bool) :
+    hrandReply obs h count wv = hrandReply obs h' count wv := by
+  unfold hrandReply
+  cases obs with
+  | none => exact hrandDefault_perm hr count wv
+  | some o => simp only [hrandAccept_perm hr count wv o, hrandDefault_perm hr count wv]
+
+theorem e_hrandWithCount (env : Env) {a b : Db} (k c : Bytes) (wv : Bool) (hs : Sim a b) :
+    Res (hrandWithCount env a k c wv) (hrandWithCount env b k c wv) := by
+  unfold hrandWithCount
+  repeat' (first | eq_pair | exact e_hashRead_eq env _ _ (fun h h' hr => hrandReply_perm hr _ _ _) hs | split)
+
+theorem e_hrandfield : CmdOk cmdHRandField := by
+  intro env a b args hs; unfold cmdHRandField
+  repeat' (first
+    | eq_pair
+    | exact e_hashRead_eq env _ _ (fun h h' hr => hrandReply_perm hr _ _ _) hs
+    | exact e_hrandWithCount env _ _ _ hs
+    | split)
 
 end Exec.Equiv
